@@ -38,19 +38,61 @@ def _ctx_embs(tier, seed):
     return embed.for_tier(tier, seed)
 
 
+MOVE_VEC = (8, -12, 20, -4)
+
+
+def _warm(mesh):
+    """read every derived datum once (a stale cache would be filled here)"""
+    list(mesh.indices)
+    list(mesh)
+    mesh.cells
+    mesh.vertices
+    mesh.coordinate_field()
+    len(mesh)
+    mesh.cell
+    mesh.dV
+
+
+def _apply_move(mesh, mv, old, emb, names):
+    nd = len(old["n"])
+    if mv == "translate":
+        mesh.translate([emb.length(MOVE_VEC[d]) for d in range(nd)], inplace=True)
+    elif mv == "scale2_about_pmin":
+        mesh.scale(2, reference_point=tuple(float(v) for v in mesh.region.pmin), inplace=True)
+    elif mv == "scale2_about_origin":
+        mesh.scale(2.0, reference_point=tuple(emb.x(0) for _ in range(nd)), inplace=True)
+    elif mv == "rot90_about_pmin":
+        mesh.rotate90(names[0], names[1], k=1, reference_point=tuple(float(v) for v in mesh.region.pmin), inplace=True)
+    else:
+        raise core._tlc.MachineryError(f"unknown move {mv}")
+
+
 def exec_state(df, st, emb, part):
     m, act, obs = st["mesh"], st["act"], st["obs"]
+    moved = st.get("moved", ())
     nd = len(m["n"])
     cq = lat.cellq(m)
-    names = lat.names_for(m)
-    flip = lat.flip_for(m)
-    key = lambda clause: f"{clause}/{act[0]}/{'dyadic' if emb.dyadic else 'real'}"
-    wit = lambda **kw: dict(mesh=m, act=act, expected=obs, embedding=emb.name, dims=names, flip=flip, **kw)
+    src = moved[1] if moved else m
+    names = lat.names_for(src)
+    flip = lat.flip_for(src)
+    mvtag = ("after-" + moved[0]) if moved else "fresh"
+    key = lambda clause: f"{clause}/{act[0]}/{'dyadic' if emb.dyadic else 'real'}/{mvtag}"
+    wit = lambda **kw: dict(mesh=m, moved=moved, act=act, expected=obs, embedding=emb.name, dims=names, flip=flip, **kw)
     try:
-        mesh = lat.mesh_of(df, m, emb, dims=names, flip=flip)
+        mesh = lat.mesh_of(df, src, emb, dims=names, flip=flip)
     except Exception as ex:  # a valid mesh must be constructible
         part.violation(key("construct"), f"Mesh(region, n) raised {type(ex).__name__}", wit(exc=repr(ex)))
         return
+    if moved:
+        _warm(mesh)
+        try:
+            _apply_move(mesh, moved[0], src, emb, names)
+        except Exception as ex:
+            part.violation(key("move"), f"in-place {moved[0]} raised {type(ex).__name__}", wit(exc=repr(ex)))
+            return
+        if moved[0].startswith("rot90") and emb.dyadic:
+            # cos(k*pi/2) is inexact in floating point: tolerance and face ambiguity apply from here on
+            emb = embed.Embedding(emb.name, emb.quantum, emb.origin, False)
     coords = [m["lo"][d] for d in range(nd)] + [m["lo"][d] + m["c"][d] * m["n"][d] for d in range(nd)]
     close = lambda x, q: emb.close(x, q, cq, coords)
     kind = act[0]
@@ -66,9 +108,9 @@ def exec_state(df, st, emb, part):
         # region corners: normalised whatever the corner order was
         for d in range(nd):
             if not (close(mesh.region.pmin[d], m["lo"][d]) and close(mesh.region.pmax[d], coords[nd + d])):
-                part.violation(key("corners"), "pmin/pmax are not the normalised corners", wit(pmin=mesh.region.pmin, pmax=mesh.region.pmax))
+                part.violation(key("corners"), "pmin/pmax are not the (transformed) normalised corners", wit(pmin=mesh.region.pmin, pmax=mesh.region.pmax))
         if len(mesh) > 1:
-            part.nontriv(str(m), kind, emb.name)
+            part.nontriv(str(m), mvtag, kind, emb.name)
     elif kind == "iterate":
         got = [tuple(int(v) for v in i) for i in mesh.indices]
         if got != [tuple(i) for i in obs]:
@@ -82,25 +124,25 @@ def exec_state(df, st, emb, part):
                     part.violation(key("C01_Order"), "iteration yields a point that is not the centre of the cell in order", wit(index=i, point=p))
                     break
         if len(obs) > 1:
-            part.nontriv(str(m), kind, emb.name)
+            part.nontriv(str(m), mvtag, kind, emb.name)
     elif kind == "index2point":
-        i = act[1]
-        try:
-            p = mesh.index2point(tuple(i))
-            ok = True
-        except Exception as ex:
-            ok, p = False, repr(ex)
-        if ok != obs["ok"]:
-            part.violation(key("C01_OutsideIndexRejected" if not obs["ok"] else "i2p-accept"),
-                           "index2point accepts/rejects differently from the specification", wit(got=p))
-        elif ok:
-            if not all(close(p[d], obs["v"][d]) for d in range(nd)):
-                part.violation(key("i2p-centre"), "index2point is not pmin+(i+1/2)*cell", wit(got=p))
-            back = mesh.point2index(p)
-            if tuple(back) != tuple(i):
-                part.violation(key("C01_Inverse"), "point2index(index2point(i)) != i", wit(got=back))
-        if any(v != 0 for v in i):
-            part.nontriv(str(m), kind, str(i), emb.name)
+        for i, r in obs.items():
+            try:
+                p = mesh.index2point(tuple(i))
+                ok = True
+            except Exception as ex:
+                ok, p = False, repr(ex)
+            if ok != r["ok"]:
+                part.violation(key("C01_OutsideIndexRejected" if not r["ok"] else "i2p-accept"),
+                               "index2point accepts/rejects differently from the specification", wit(index=i, got=p))
+            elif ok:
+                if not all(close(p[d], r["v"][d]) for d in range(nd)):
+                    part.violation(key("i2p-centre"), "index2point is not pmin+(i+1/2)*cell", wit(index=i, got=p))
+                back = mesh.point2index(p)
+                if tuple(back) != tuple(i):
+                    part.violation(key("C01_Inverse"), "point2index(index2point(i)) != i", wit(index=i, got=back))
+            part.count()
+        part.nontriv(str(m), mvtag, kind, emb.name)
     elif kind in ("point2index_line", "point2index_diag"):
         if kind == "point2index_line":
             if isinstance(obs, tuple):  # TLC prints a function with domain 1..n as a tuple
@@ -113,7 +155,7 @@ def exec_state(df, st, emb, part):
                 p[d0] = x
                 probes.append((p, r))
         else:
-            probes = [(list(obs["p"]), obs["r"])]
+            probes = [(list(v["p"]), v["r"]) for _, v in sorted(obs.items())]
         for p, r in probes:
             pt = emb.point(p)
             try:
@@ -122,16 +164,19 @@ def exec_state(df, st, emb, part):
             except Exception as ex:
                 ok, got = False, repr(ex)
             inreg = pt in mesh.region
-            if inreg != r["ok"]:
+            # a probe exactly on the region boundary may fall outside after an inexact (rotated) move
+            onbound = any(p[d] in (m["lo"][d], coords[nd + d]) for d in range(nd))
+            lenient = onbound and moved and moved[0].startswith("rot90")
+            if inreg != r["ok"] and not lenient:
                 part.violation(key("contains"), "Region.__contains__ differs from the specification", wit(point=p, got=inreg))
-            if ok != r["ok"]:
+            if ok != r["ok"] and not lenient:
                 part.violation(key("p2i-accept"), "point2index accepts/rejects differently from the specification (inside <=> accepted)", wit(point=p, got=got))
-            elif ok:
+            elif ok and r["ok"]:
                 good = tuple(got) == tuple(r["idx"]) if emb.dyadic else all(got[d] in r["alt"][d] for d in range(nd))
                 if not good:
                     part.violation(key("C01_Contains"), "point2index does not return the cell containing the point", wit(point=p, got=got, want=r))
             part.count()
-        part.nontriv(str(m), str(act), emb.name)
+        part.nontriv(str(m), mvtag, str(act), emb.name)
     elif kind in ("cells", "vertices"):
         d0 = act[1] - 1
         arr = getattr(mesh, kind)[d0]
@@ -139,7 +184,7 @@ def exec_state(df, st, emb, part):
         if len(arr) != len(obs) or not all(close(a, q) for a, q in zip(arr, obs)) or not np.array_equal(arr, named):
             part.violation(key("C01_AxesAgree"), f"mesh.{kind} does not list the lattice along the axis", wit(got=arr))
         if len(obs) > 1:
-            part.nontriv(str(m), str(act), emb.name)
+            part.nontriv(str(m), mvtag, str(act), emb.name)
     elif kind == "coordinate_field":
         f = mesh.coordinate_field()
         arr = f.array
@@ -151,19 +196,19 @@ def exec_state(df, st, emb, part):
                     part.violation(key("C01_AxesAgree"), "coordinate field value is not the cell centre", wit(index=i, got=arr[tuple(i)]))
                     break
         if len(obs) > 1:
-            part.nontriv(str(m), kind, emb.name)
+            part.nontriv(str(m), mvtag, kind, emb.name)
     elif kind == "by_cell":
-        cr = act[1]
-        cell = [emb.length(v) for v in cr]
-        try:
-            m2 = df.Mesh(region=lat.region_of(df, m, emb, dims=names, flip=flip), cell=cell)
-            ok, got = True, tuple(int(v) for v in m2.n)
-        except Exception as ex:
-            ok, got = False, repr(ex)
-        if ok != obs["ok"] or (ok and got != tuple(obs["v"])):
-            part.violation(key("C01_CellRequest"), "mesh by cell size exists iff the edges are a whole number of cells, with n = edges/cell", wit(got=got))
-        if tuple(cr) != tuple(m["c"]):
-            part.nontriv(str(m), str(act), emb.name)
+        for cr, r in obs.items():
+            cell = [emb.length(v) for v in cr]
+            try:
+                m2 = df.Mesh(region=mesh.region, cell=cell)
+                ok, got = True, tuple(int(v) for v in m2.n)
+            except Exception as ex:
+                ok, got = False, repr(ex)
+            if ok != r["ok"] or (ok and got != tuple(r["v"])):
+                part.violation(key("C01_CellRequest"), "mesh by cell size exists iff the edges are a whole number of cells, with n = edges/cell", wit(request=cr, got=got))
+            part.count()
+        part.nontriv(str(m), mvtag, kind, emb.name)
     else:
         raise core._tlc.MachineryError(f"unknown action {act}")
 
@@ -297,7 +342,7 @@ def replay(ctx, path):
         print("trace witness:", json.dumps(w)[:2000])
         return 1
     from ..tlaval import _freeze  # noqa
-    st = {"mesh": w["mesh"], "act": _tuplify(w["act"]), "obs": _obs_back(w["expected"])}
+    st = {"mesh": w["mesh"], "moved": _tuplify(w.get("moved", [])), "act": _tuplify(w["act"]), "obs": _obs_back(w["expected"])}
     exec_state(df, st, embs[w["embedding"]], part)
     for k, what, wit in part["violations"]:
         print("still fails:", k, what)
